@@ -290,6 +290,25 @@ def check_tree(c, item):
                         c.violation('C02/value/%s/growth-law' % opkey(tr), 'StateDependentVolume step %r for growth law %s, formula gives %r' % (
                             got, text, exp), dict(tree=tr, text=text, route='growth-law', where=where))
                         break
+        # the expression on a pickled copy of the model that was then given one more parameter (index book-keeping of the copy):
+        # evaluated with the copy's own parameter vector at the model's own point
+        if dclass in ('d0', 'd1'):
+            try:
+                import pickle
+                m2 = pickle.loads(pickle.dumps(m))
+                m2.create_parameter('zz_new', 11.0)
+                m2.py_initialize()
+                prop2 = m2.get_propensities()[0]
+                st2 = np.zeros(len(ms2i))
+                for s_, i_ in m2.get_species2index().items():
+                    st2[i_] = POINTS[0].get(s_, 0.0)
+                got2 = prop2.py_get_propensity(st2, m2.get_parameter_values(), TIMES[0])
+            except Exception:
+                got2 = None
+            ref0 = next((r_ for (pi_, pt_, t_, V_), r_ in zip(point_iter(), refs) if pi_ == 0 and t_ == TIMES[0] and V_ is None), None)
+            c.count('evaluations'); c.count('transitions')
+            compare(c, 'C02/value/%s/copied-and-extended-model' % opkey(tr), tr, text, 'general propensity of a pickled copy given one more parameter', got2, ref0,
+                    dict(cfg=cfg, point=0, t=TIMES[0], volume=None))
         # the rule route needs the rule object
         try:
             rules = m.get_rules()
